@@ -208,7 +208,7 @@ impl Prop for C08 {
     type Input = Input;
 
     fn budget(tier: Tier) -> u64 {
-        tier.pick(120_000, 3_000_000)
+        tier.pick(1_000_000, 8_000_000)
     }
 
     fn strategy(tier: Tier) -> BoxedStrategy<Case> {
